@@ -125,6 +125,38 @@ class ArtifactExistsError(ArtifactError):
 
 class TarHelper:
 
+    def __checkMember(self, f, content):
+        """Reject members that could touch anything outside of the workspace.
+
+        The extraction filter of tarfileOpen() only verifies that the resolved
+        name of a member is inside of the destination. That is not sufficient:
+         * "." / ".." / empty components are resolved lexically by
+           os.path.realpath() if an intermediate directory does not exist yet
+           but tarfile creates such directories with os.makedirs().
+         * Existing symlinks are replaced, not followed, when a symlink is
+           extracted. The directory receiving the entry must be inside too.
+         * Hard links are created from os.path.join(content, linkname) and the
+           attributes are applied through the new name. The source must be a
+           regular file that was already extracted into the workspace and the
+           link must not replace anything. Otherwise tarfile follows symlinks
+           or falls back to extracting some other member unfiltered.
+        Bob itself only creates canonical names and hard links to regular files.
+        """
+        path = os.path.realpath(content)
+        name = f.name
+        if any(c in ('', '.', '..') for c in name.replace(os.sep, '/').split('/')):
+            raise BuildError("Binary artifact contained invalid file name: " + name)
+        parent = os.path.realpath(os.path.join(path, os.path.dirname(name)))
+        if os.path.commonpath([parent, path]) != path:
+            raise BuildError("Binary artifact contained file outside of workspace: " + name)
+        if f.islnk():
+            source = os.path.join(path, f.linkname)
+            if (os.path.commonpath([os.path.realpath(source), path]) != path
+                    or os.path.islink(source) or not os.path.isfile(source)
+                    or os.path.lexists(os.path.join(path, name))):
+                raise BuildError("unsafe hard link in archive: '{}' -> '{}'"
+                                    .format(f.name, f.linkname))
+
     def __extractPackage(self, tar, audit, content):
         if tar.pax_headers.get('bob-archive-vsn', "0") != "1":
             raise BuildError("Unsupported binary artifact")
@@ -138,6 +170,7 @@ class TarHelper:
                                             .format(f.name, f.linkname))
                     f.linkname = f.linkname[8:]
                 f.name = f.name[8:]
+                self.__checkMember(f, content)
                 try:
                     tar.extract(f, content)
                 except UnicodeError:
